@@ -23,6 +23,7 @@ from .source import ClassInfo, FunctionInfo, ModuleInfo, SourceIndex
 from .types import TypeParser
 from . import containers   # containers
 from .containers import SymKey, SymMap, SymSet   # containers
+from . import ufmaps   # ufmaps
 from .values import (BoundBuiltin, ClassV, EnumName, EnumV, ExcV, ExtV, FlagV, FuncV, InterpError,
                      LambdaV, Lazy, ModV, Opaque, SObj, SymFloat, Unsupported, as_int,
                      as_z3bool, as_z3int, as_z3real, is_boollike, is_fraclike, is_intlike,
@@ -486,7 +487,7 @@ class Path:
             b = z3.Int(name + '#bits')
             self.assume(z3.And(b >= 0, b < (1 << 64)), fact=True)
             return SymFloat(b)
-        if k in ('key', 'map', 'set', 'kseq'):   # containers
+        if k in ('key', 'map', 'set', 'kseq', 'relmap'):   # containers
             return containers.fresh(self, typ, name)
         if k == 'opaque':
             return Opaque(f'{name}:{typ[1]}')
@@ -753,6 +754,8 @@ class Path:
             if hk in v:
                 return v[hk]
             raise SymRaise(mk_exc('KeyError'))
+        if isinstance(v, ufmaps.SymRelMap):   # ufmaps
+            return ufmaps.getitem(self, v, k)
         if isinstance(v, SymMap):   # containers
             return containers.map_getitem(self, v, k)
         if isinstance(v, SObj):
@@ -1429,6 +1432,8 @@ class Path:
     def contains(self, container, item):
         if isinstance(container, seqs.KINDS):
             return seqs.contains(self, container, item)
+        if isinstance(container, (ufmaps.SymRelMap, ufmaps.SymRow)):   # ufmaps
+            return ufmaps.contains(self, container, item)
         if isinstance(container, (SymMap, SymSet)):   # containers
             return containers.contains(self, container, item)
         if type(container).__name__ == 'SymStr':
@@ -1908,6 +1913,8 @@ class Path:
     def setitem(self, obj, k, v):
         if self.txns:
             raise MergeAbort()
+        if isinstance(obj, ufmaps.SymRelMap):   # ufmaps
+            return ufmaps.setitem(self, obj, k, v)
         if isinstance(obj, SymMap):   # containers
             return containers.map_setitem(self, obj, k, v)
         if self.loop_guard is not None:   # containers
@@ -2094,6 +2101,8 @@ class Path:
             self.exec_block(st.orelse, fr)
 
     def ex_While(self, st, fr):
+        if ufmaps.applies(self, st, fr):   # ufmaps: while rule with heap writes
+            return ufmaps.loop_rule(self, st, fr)
         if seqs.has_invariant(self, st, fr):
             return seqs.loop_rule(self, st, None, fr)
         n = 0
@@ -2247,6 +2256,11 @@ class Path:
                 if self.txns:
                     raise MergeAbort()
                 fr.locals.pop(t.id, None)
+            elif isinstance(t, ast.Subscript) and not self.txns:   # ufmaps: del m[k] on a symbolic dict
+                obj = self.ev(t.value, fr)
+                if not isinstance(obj, (ufmaps.SymRelMap,)):
+                    raise Unsupported('del target')
+                ufmaps.delitem(self, obj, self.ev(t.slice, fr))
             else:
                 raise Unsupported('del target')
 
